@@ -246,8 +246,11 @@ theorem blind_create (name : String) (init : Init V) : Blind (Tbl.create name in
   | list l =>
     have e : appendVals w.trk.ids l (w.zmap f).heap = _ := appendVals_zmap f w.trk.ids l w.heap
     simp only
-    rw [e]
-    rfl
+    by_cases hl : l.length < w.trk.ids.length
+    · simp [hl]
+    · simp only [hl, if_false]
+      rw [e]
+      rfl
 
 theorem blind_update (name : String) (init : Init V) : Blind (Tbl.update name init : M (World V) Unit) := by
   intro f w
